@@ -1,11 +1,13 @@
 import Driver.Proto
 import Driver.Hb
+import Driver.Unov
 /-! Model driver: one request per line on stdin, one answer per line on stdout. -/
 open Drv
 
 def dispatch (line : String) : String :=
   match (line.splitOn " ").filter (· ≠ "") with
   | "hb" :: r => Hb.handle r
+  | "unov" :: r => Unov.handle r
   | [] => "bad empty"
   | a :: _ => s!"bad area {a}"
 
